@@ -426,6 +426,8 @@ func lexInsideAction(l *lexer) stateFn {
 			itemBool != l.lastType &&
 			itemField != l.lastType &&
 			itemChar != l.lastType &&
+			itemRightParen != l.lastType &&
+			itemRightBrackets != l.lastType &&
 			itemTrans != l.lastType {
 			l.backup()
 			return lexNumber
@@ -443,6 +445,8 @@ func lexInsideAction(l *lexer) stateFn {
 			itemBool != l.lastType &&
 			itemField != l.lastType &&
 			itemChar != l.lastType &&
+			itemRightParen != l.lastType &&
+			itemRightBrackets != l.lastType &&
 			itemTrans != l.lastType {
 			l.backup()
 			return lexNumber
